@@ -5,10 +5,14 @@ import os, subprocess, sys
 ROOT = os.environ.get("VERIF_ROOT", "/verif")
 SIM = {"C01", "C02", "C03", "C04", "C05", "C06", "C15", "C16", "C17", "C18", "C19", "C20", "C21", "C22", "C23",
        "C24", "C25", "C26", "C27", "C28", "C29", "C30", "C31", "C32", "C33", "C35", "C36", "C37"}
-CODEC = {"C07", "C08", "C09", "C10", "C11", "C12", "C13", "C14", "C38", "C39"}
+CODEC = {"C08", "C14", "C38"}
+XCDR = {"C09", "C10", "C11", "C12", "C39"}
+DISC = {"C07", "C13"}
 ENGINE = {}
 for p in SIM: ENGINE[p] = "sim"
 for p in CODEC: ENGINE[p] = "codec"
+for p in XCDR: ENGINE[p] = "xcdr"
+for p in DISC: ENGINE[p] = "disc"
 ENGINE["C34"] = "chan"
 ENGINE["C42"] = "rt"
 ENGINE["C40"] = "gen"
